@@ -47,6 +47,16 @@ pub fn main(args: &[String]) -> i32 {
             }
             run_check(&id, &tier, replay.as_deref())
         }
+        "gen-corpus" => {
+            let out = args.get(1).map(std::path::PathBuf::from).unwrap_or_else(crate::ecorpus::corpus_dir);
+            match crate::ecorpus::generate(&out) {
+                Ok(()) => 0,
+                Err(e) => {
+                    eprintln!("gen-corpus failed: {e}");
+                    2
+                }
+            }
+        }
         "worker" => {
             match args.get(1).map(|s| s.as_str()) {
                 Some("seq") => eseq::worker_main(),
@@ -56,6 +66,8 @@ pub fn main(args: &[String]) -> i32 {
                 Some("crash") => crate::ecrash::worker_main(),
                 Some("fault") => crate::efault::worker_main(),
                 Some("sched") => crate::esched::worker_main(),
+                Some("bin") => crate::ebin::worker_main(),
+                Some("corpus") => crate::ecorpus::worker_main(),
                 other => eprintln!("unknown worker kind {other:?}"),
             }
             0
@@ -78,6 +90,8 @@ fn run_check(id: &str, tier: &str, replay: Option<&str>) -> i32 {
         "C04" => c04_check(tier, replay),
         "C05" => c05_check(tier, replay),
         "C03" => c03_check(tier, replay),
+        "C17" => c17_check(tier, replay),
+        "C19" => c19_check(tier, replay),
         _ => {
             eprintln!("no check for property {id}");
             2
@@ -1207,5 +1221,151 @@ fn c03_check(tier: &str, replay: Option<&str>) -> i32 {
     rep.assume("scheduling points: before Storage::txn, before every StorageTxn method, before the transaction is dropped, at request start; thorough adds every SQLite lock call; blocking is observed through SQLite's busy handler (xSleep) and the in-memory mutex's try_lock");
     rep.assume("server instances are separate objects in one process; SQLite's cross-process fcntl locking is assumed to honour the same contract as its in-process locking");
     rep.assume("schedules beyond the preemption bound and more than 3 threads are not explored");
+    rep.finish()
+}
+
+// ---------------------------------------------------------------------------------------------
+// C17: the real executable
+
+fn c17_check(tier: &str, replay: Option<&str>) -> i32 {
+    let quick = tier != "thorough";
+    let mut rep = Report::new("C17", tier, "exploration");
+    if !crate::ebin::server_binary().exists() {
+        eprintln!("MACHINERY-ERROR: server binary {} not built (the ./check driver builds it)", crate::ebin::server_binary().display());
+        return 2;
+    }
+    let ls: Vec<crate::ebin::Launch> = if let Some(file) = replay {
+        let s = std::fs::read_to_string(file).unwrap_or_default();
+        let v: Value = serde_json::from_str(&s).unwrap_or(Value::Null);
+        vec![crate::ebin::Launch::from_json(&v["replay"]["launch"])]
+    } else {
+        crate::ebin::launches(quick)
+    };
+    let tasks: Vec<Value> = ls.iter().map(|l| l.to_json()).collect();
+    let mut pool = crate::pool::Pool::spawn(threads().min(12), "bin", &json!({"seed": seed()}));
+    let results = pool.map(&tasks);
+    drop(pool);
+    let mut requests = 0u64;
+    let mut served = 0u64;
+    for (k, r) in results.iter().enumerate() {
+        match r {
+            Ok(res) => {
+                if let Some(e) = res["error"].as_str() {
+                    rep.machinery_errors.push(e.to_string());
+                    continue;
+                }
+                requests += res["requests"].as_u64().unwrap_or(0);
+                served += 1;
+                for f in res["findings"].as_array().cloned().unwrap_or_default() {
+                    let class = f["class"].as_str().unwrap_or("");
+                    if class == "machinery" {
+                        rep.machinery_errors.push(f["msg"].as_str().unwrap_or("").to_string());
+                        continue;
+                    }
+                    rep.violations.push(Violation {
+                        property: "C17".into(),
+                        signature: format!("ebin|{class}"),
+                        message: format!("configuration {}: {}", tasks[k], f["msg"].as_str().unwrap_or("")),
+                        replay: json!({"engine": "ebin", "launch": tasks[k]}),
+                    });
+                }
+            }
+            Err(e) => rep.machinery_errors.push(format!("bin worker: {e}")),
+        }
+    }
+    if replay.is_some() {
+        if let Some(v) = rep.violations.first() {
+            println!("VIOLATION property=C17 replay={}", replay.unwrap());
+            println!("  {}", v.message);
+            return 1;
+        }
+        println!("replay: no violation of C17");
+        return 0;
+    }
+    rep.cov("evaluations", json!(served));
+    rep.cov("distinct_nontrivial", json!(tasks.len()));
+    rep.cov("rule", json!("one evaluation = one launch of the real executable built from /repo with one configuration (listen addresses x how they are given x data dir by flag/env x allow-list size and how it is given x snapshot-versions and snapshot-days values by flag/env), followed by a scripted protocol session over real TCP spread over all listen addresses (urgency compared with the model for the configured targets, snapshot aged from outside), an allow-list probe on all four endpoints for listed and unlisted ids, SIGKILL, restart on the same directory and a full re-read; quick: one dimension varied at a time plus all-env / all-flag; thorough: full product. Every configuration is distinct and non-default in at least one dimension except the base one"));
+    rep.cov("http_requests_over_tcp", json!(requests));
+    rep.cov("samples", json!([tasks[0], tasks[tasks.len() / 2], tasks[tasks.len() - 1]]));
+    rep.cov("exhaustive", json!(true));
+    rep.assume("real processes, sockets and actix worker threads are not under a scheduler; the session is sequential so observations are deterministic; this is exhaustive enumeration of configurations, not of schedules");
+    rep.assume("loopback only (IPv4, IPv6, localhost)");
+    rep.finish()
+}
+
+// ---------------------------------------------------------------------------------------------
+// C19: corpus of the pinned release
+
+fn c19_check(tier: &str, replay: Option<&str>) -> i32 {
+    let quick = tier != "thorough";
+    let mut rep = Report::new("C19", tier, "exploration");
+    let root = crate::ecorpus::corpus_dir();
+    let mut dirs: Vec<std::path::PathBuf> = std::fs::read_dir(&root).map(|rd| rd.flatten().map(|e| e.path()).filter(|p| p.join("meta.json").exists()).collect()).unwrap_or_default();
+    dirs.sort();
+    if let Some(file) = replay {
+        let s = std::fs::read_to_string(file).unwrap_or_default();
+        let v: Value = serde_json::from_str(&s).unwrap_or(Value::Null);
+        let d = std::path::PathBuf::from(v["replay"]["dir"].as_str().unwrap_or(""));
+        let (f, _, _) = crate::ecorpus::check_fixture(&d, v["replay"]["depth"].as_u64().unwrap_or(1) as usize);
+        if let Some((_, m)) = f.first() {
+            println!("VIOLATION property=C19 replay={file}");
+            println!("  {m}");
+            return 1;
+        }
+        println!("replay of {file}: no violation of C19");
+        return 0;
+    }
+    if dirs.is_empty() {
+        eprintln!("MACHINERY-ERROR: no fixtures under {}", root.display());
+        return 2;
+    }
+    let depth = if quick { 1 } else { 2 };
+    let tasks: Vec<Value> = dirs.iter().map(|d| json!({"dir": d.display().to_string(), "depth": depth})).collect();
+    let mut pool = crate::pool::Pool::spawn(threads(), "corpus", &json!({}));
+    let results = pool.map(&tasks);
+    drop(pool);
+    let mut states = 0u64;
+    let mut transitions = 0u64;
+    let mut with_wal = 0u64;
+    for (k, r) in results.iter().enumerate() {
+        match r {
+            Ok(res) => {
+                if let Some(e) = res["error"].as_str() {
+                    rep.machinery_errors.push(e.to_string());
+                    continue;
+                }
+                states += res["states"].as_u64().unwrap_or(0);
+                transitions += res["transitions"].as_u64().unwrap_or(0);
+                if dirs[k].join(format!("{}-wal", crate::sut::DB_FILE)).exists() {
+                    with_wal += 1;
+                }
+                for f in res["findings"].as_array().cloned().unwrap_or_default() {
+                    let class = f["class"].as_str().unwrap_or("");
+                    if class == "machinery" {
+                        rep.machinery_errors.push(f["msg"].as_str().unwrap_or("").to_string());
+                        continue;
+                    }
+                    rep.violations.push(Violation {
+                        property: "C19".into(),
+                        signature: format!("ecorpus|{class}"),
+                        message: f["msg"].as_str().unwrap_or("").to_string(),
+                        replay: json!({"engine": "ecorpus", "dir": tasks[k]["dir"], "depth": depth}),
+                    });
+                }
+            }
+            Err(e) => rep.machinery_errors.push(format!("corpus worker: {e}")),
+        }
+    }
+    rep.cov("evaluations", json!(dirs.len()));
+    rep.cov("distinct_nontrivial", json!(dirs.len()));
+    rep.cov("rule", json!("one evaluation = one committed data directory written by the pinned tree (a6bc6ed): every canonical state the history exploration reaches at its quick bound (2 clients depth 3, 1 client depth 5), plus directories with 10 KB - 1 MB payloads after a clean shutdown and after a kill with a leftover write-ahead log (commit not checkpointed; mid-checkpoint). Each is copied, opened by the current code on three implementations (library, HTTP, reopened before every request), its complete stored content compared with the recorded expectation (raw tables + API view + chain walks + snapshot), and the history continued from there by the E-SEQ explorer (every request of the alphabet, accepted or not; mutating ones followed to the continuation depth). All fixtures are distinct states by construction"));
+    rep.cov("fixtures_with_leftover_wal", json!(with_wal));
+    rep.cov("continuation_depth", json!(depth));
+    rep.cov("states_explored_from_fixtures", json!(states));
+    rep.cov("transitions_from_fixtures", json!(transitions));
+    rep.cov("samples", json!(dirs.iter().take(3).map(|d| d.file_name().unwrap().to_string_lossy().to_string()).collect::<Vec<_>>()));
+    rep.cov("exhaustive", json!(true));
+    rep.assume("exhaustive over the committed corpus; the corpus covers the quick exploration bound of the pinned tree, not every database that release could write");
+    rep.assume("fixtures were generated by tools/gen_corpus.sh from a checkout of a6bc6ed carrying only the (behaviour-neutral, SQLite-untouched) hook commits");
     rep.finish()
 }
